@@ -74,6 +74,9 @@ bit-exact correspondence run for the loops); std's `sort_by` being a stable sort
 import Kodama.Lemmas.PrimGreedyRun
 import Kodama.Lemmas.SpecDecide
 import Kodama.Model.Linkage
+import Kodama.Lemmas.ReduciblePos
+import Kodama.Lemmas.FieldInstances
+import Mathlib.Algebra.Order.Field.Rat
 namespace Kodama
 open Spec
 variable {α : Type} [Num α]
@@ -264,5 +267,90 @@ example : ∃ a b v, argmin true ({ data := #[5, 1, 4, 3, 1, 2], n := 4 } : Mat 
     (fun _ _ _ _ _ _ _ => rfl)
 
 end Example
+
+/-! ## EXACT ARITHMETIC: `primitive_with` over a linearly ordered field (appended section)
+
+Scope.  Exact arithmetic ONLY: `K` is a linearly ordered field
+(`[Field K] [LinearOrder K] [IsStrictOrderedRing K]`) whose `Num K` instance computes the field
+operations and has no NaN (`ExactLaws K`, `Lemmas/FieldInstances.lean`; satisfied by `fieldNum K` and
+`fieldNumWith K sq` for every `sq`).  IEEE floats are not a field, so nothing here is a statement
+about `f32`/`f64`; the float gap is MEASURED by the oracles (tolerances of the property), not proved.
+
+Entry point: `primitive_with` (model `primitiveWith`), both build modes, every prior state, every
+valid matrix `2 ≤ n < 2^31`, `2·len = n(n-1)`, ALL SEVEN methods.  No further hypothesis: all law
+hypotheses of the theorems above (`OrderLaws`, `LwSymm`, `NoNaNRun`, reducibility) are discharged.
+
+* `C03_primitive_reduciblePos`  (any number type) `C03_primitive_reducible` with the hypothesis
+      `Spec.ReduciblePos α m` — reducibility for POSITIVE cluster sizes only — in place of
+      `Spec.Reducible α m`.  Needed because `Reducible` quantifies over all sizes and is FALSE for
+      average/Ward in a field at sizes `0` (`0/0 = 0`; `ExactLaws.not_reducible_average/_ward`); the
+      sizes met along a greedy run are positive (`Spec.SizePos`, `Lemmas/ReduciblePos.lean`).
+      Proved by composing `C03_primitive_mergeorder` and `C03_primitive_of_monotone`.
+* `C03_primitive_exact`  all seven methods over `K`: `primitiveWith` returns normally and the
+      returned steps are `Spec.GreedyValid m n data` (centroid/median through
+      `C03_primitive_unsorted`, the other five through `C03_primitive_reduciblePos`).
+-/
+
+/-- Methods reducible on positive sizes: the merge-order heights never decrease, so the stable sort
+is the identity and the returned steps are greedy-valid. -/
+theorem C03_primitive_reduciblePos (L : OrderLaws α) (chk : Bool) (m : Method) (hsym : LwSymm α m)
+    (hred : ReduciblePos α m)
+    (st : State α) (d : Dendrogram α) (data : Array α) (n : Nat) (h2 : 2 ≤ n)
+    (hs : n < 2147483648) (hl : 2 * data.size = n * (n - 1)) (hnn : NoNaNRun m n data) :
+    ∃ st' dend' M', primitiveWith chk m st d data n = .ok (st', dend', M') ∧
+      GreedyValid m n data dend'.steps.toList := by
+  refine C03_primitive_of_monotone L chk m hsym st d data n h2 hs hl hnn ?_
+  intro st1 dend1 M1 hloop
+  obtain ⟨st1', dend1', M1', hloop', -, hvalid, hts, -⟩ :=
+    C03_primitive_mergeorder L chk m hsym st d data n h2 hs hl hnn
+  rw [hloop] at hloop'
+  simp only [Except.ok.injEq, Prod.mk.injEq] at hloop'
+  obtain ⟨-, rfl, -⟩ := hloop'
+  have h := greedy_heights_mono_pos L hred (mergeOrder m n dend1.steps.toList) (init m n data) 0
+    (init_StInv m n data) (init_SizePos m n data) hvalid.2
+    (runNoNaN_of_noNaNRun hnn _ [] hvalid.2)
+  rw [← hts, List.pairwise_map] at h
+  exact h
+
+section Exact
+variable {K : Type} [Field K] [LinearOrder K] [IsStrictOrderedRing K] [Num K]
+
+/-- **C03 for `primitive_with` in exact arithmetic, all seven methods.** -/
+theorem C03_primitive_exact (E : ExactLaws K) (chk : Bool) (m : Method) (st : State K)
+    (d : Dendrogram K) (data : Array K) (n : Nat) (h2 : 2 ≤ n) (hs : n < 2147483648)
+    (hl : 2 * data.size = n * (n - 1)) :
+    ∃ st' d' M', primitiveWith chk m st d data n = .ok (st', d', M') ∧
+      GreedyValid m n data d'.steps.toList := by
+  cases hm : m.requiresSorting with
+  | true =>
+    exact C03_primitive_reduciblePos E.field.orderLaws chk m (E.field.lwSymm m)
+      (E.field.reduciblePos m hm) st d data n h2 hs hl (E.noNaNRun m n data)
+  | false =>
+    exact C03_primitive_unsorted E.field.orderLaws chk m hm (E.field.lwSymm m) st d data n h2 hs hl
+      (E.noNaNRun m n data)
+
+end Exact
+
+/-! ### Non-vacuity over `ℚ` -/
+
+section ExactExample
+
+/-- The hypothesis bundle is inhabited by `fieldNum ℚ`; Ward on the matrix `d01=1 d02=9 d12=4`. -/
+example : ∃ st' d' M',
+    @primitiveWith ℚ (fieldNum ℚ) true .ward State.new (Dendrogram.new 0) #[1, 9, 4] 3
+      = .ok (st', d', M') ∧
+    @GreedyValid ℚ (fieldNum ℚ) .ward 3 #[1, 9, 4] d'.steps.toList :=
+  @C03_primitive_exact ℚ _ _ _ (fieldNum ℚ) (exactLaws_fieldNum ℚ) true .ward _ _ _ 3
+    (by decide) (by decide) (by decide)
+
+/-- The same for every method at once (and for `fieldNumWith ℚ sq`, any `sq`). -/
+example (sq : ℚ → ℚ) (m : Method) : ∃ st' d' M',
+    @primitiveWith ℚ (fieldNumWith ℚ sq) false m State.new (Dendrogram.new 0) #[1, 9, 4] 3
+      = .ok (st', d', M') ∧
+    @GreedyValid ℚ (fieldNumWith ℚ sq) m 3 #[1, 9, 4] d'.steps.toList :=
+  @C03_primitive_exact ℚ _ _ _ (fieldNumWith ℚ sq) (exactLaws_fieldNumWith ℚ sq) false m _ _ _ 3
+    (by decide) (by decide) (by decide)
+
+end ExactExample
 
 end Kodama
